@@ -49,18 +49,24 @@ class ScopeGen(object):
         name = r.choice(self.names)
         depth = len(self.vis) - 1
         if k < 0.4:
-            self.vis[-1][name] = True
+            body = self.mark()
+            self.vis[-1][name] = body
             self.features.add('def')
-            return '\\def\\%s{%s}' % (name, self.mark())
+            return '\\def\\%s{%s}' % (name, body)
         if k < 0.55:
+            # sometimes with the very text of the local definition that is live at this point (equal text is not the same definition)
+            live = [sc[name] for sc in self.vis[1:] if isinstance(sc.get(name), str)]
+            body = live[-1] if (live and r.random() < 0.3) else self.mark()
+            if live and body == live[-1]:
+                self.features.add('global-definition-equal-to-live-local')
             for s in self.vis:
                 s.pop(name, None)
-            self.vis[0][name] = True
+            self.vis[0][name] = body
             if r.random() < 0.3:
                 self.features.add('global-def')
-                return '\\global\\def\\%s{%s}' % (name, self.mark())
+                return '\\global\\def\\%s{%s}' % (name, body)
             self.features.add('gdef')
-            return '\\gdef\\%s{%s}' % (name, self.mark())
+            return '\\gdef\\%s{%s}' % (name, body)
         if k < 0.57:
             # an alias of a character token, local or global.  Normal form (known finding `character-alias-substituted-when-tokenized`):
             # the name is not otherwise defined and not aliased at this point, and the \let does not stand inside a command argument
